@@ -115,25 +115,27 @@ def funcPtr : Option Val → Nat
   | some (.func _ c _) => c
   | _ => 0
 
-/-- equals.go:174 `equal`.  The only panic: `Interface()` on the invalid Value (an unresolved expression). -/
+/-- equals.go:192-207: the cascade after the nil handling and the one `Elem`.
+    The only panic: `Interface()` on the invalid Value (an unresolved expression). -/
+def cascade (l r : Option Val) : Res Bool :=
+  let ns := numStringEqual l r
+  if ns.2 then .ok ns.1                                     -- :192
+  else if isNum l && isNum r then .ok (numText l == numText r)   -- :196
+  else
+    let be := boolEquals l r
+    if be.2 then .ok be.1                                   -- :200
+    else if isFunc l && isFunc r then .ok (funcPtr l == funcPtr r)  -- :204
+    else match l, r with                                    -- :207
+      | some a, some b => .ok (deepEqual (toIface a) (toIface b))
+      | _, _ => .panic "reflect-call-of-reflect.value.interface"
+
+/-- equals.go:174 `equal`: nil handling (:175-182), one `Elem` for pointer/interface (:184-190), then the cascade. -/
 def equal (l r : Option Val) : Res Bool :=
   let ln := isNil l
   let rn := isNil r
   if ln && rn then .ok true                                   -- :176
   else if (!ln && rn) || (ln && !rn) then .ok false           -- :180
-  else
-    let l := elemIfPtrOrIface l                               -- :184
-    let r := elemIfPtrOrIface r                               -- :188
-    let ns := numStringEqual l r
-    if ns.2 then .ok ns.1                                     -- :192
-    else if isNum l && isNum r then .ok (numText l == numText r)   -- :196
-    else
-      let be := boolEquals l r
-      if be.2 then .ok be.1                                   -- :200
-      else if isFunc l && isFunc r then .ok (funcPtr l == funcPtr r)  -- :204
-      else match l, r with                                    -- :207
-        | some a, some b => .ok (deepEqual (toIface a) (toIface b))
-        | _, _ => .panic "reflect-call-of-reflect.value.interface"
+  else cascade (elemIfPtrOrIface l) (elemIfPtrOrIface r)
 
 /-! ## arg/value.go:49 `toValue` -/
 
